@@ -125,18 +125,11 @@ Proof.
   apply cmp_gt_iff in E; auto. unfold lexlt, peq in *. lra.
 Qed.
 
-(** * The sort of exactSign on three distinct points: one sorted triple, sign of the permutation *)
-Section Sort.
-  Variables a b c : s2_Point.
-  Hypothesis Fa : finite a.
-  Hypothesis Fb : finite b.
-  Hypothesis Fc : finite c.
-  Hypothesis D : distinct3 a b c.
+Lemma peq_sym p q : peq p q -> peq q p.
+Proof. unfold peq. intuition. Qed.
 
-  Lemma peq_sym p q : peq p q -> peq q p.
-  Proof. unfold peq. intuition. Qed.
-
-  Ltac six_cases :=
+Ltac six_cases a b c Fa Fb Fc D :=
+    let Dab := fresh "Dab" in let Dbc := fresh "Dbc" in let Dac := fresh "Dac" in
     destruct D as (Dab & Dbc & Dac);
     assert (Dba : ~ peq b a) by (intro; apply Dab; now apply peq_sym);
     assert (Dcb : ~ peq c b) by (intro; apply Dbc; now apply peq_sym);
@@ -149,30 +142,38 @@ Section Sort.
     try (exfalso; pose proof (cmp_gt_trans a b c Fa Fb Fc Hab Hbc); congruence);
     try (exfalso; pose proof (cmp_gt_trans c b a Fc Fb Fa Hcb Hba); congruence).
 
-  Ltac run_sort :=
+Ltac run_sort :=
     unfold sort3;
     repeat (match goal with H : cmp_gt ?p ?q = _ |- context [cmp_gt ?p ?q] => rewrite H end;
             cbn beta iota zeta).
 
+(** * The sort of exactSign on three distinct points: one sorted triple, sign of the permutation *)
+Section Sort.
+  Variables a b c : s2_Point.
+  Hypothesis Fa : finite a.
+  Hypothesis Fb : finite b.
+  Hypothesis Fc : finite c.
+  Hypothesis D : distinct3 a b c.
+
   Lemma sort3_rotate : sort3 b c a = sort3 a b c.
-  Proof. six_cases; run_sort; reflexivity. Qed.
+  Proof. six_cases a b c Fa Fb Fc D; run_sort; reflexivity. Qed.
 
   Lemma sort3_swap13 :
     sort3 c b a = (let '(pa, pb, pc, s) := sort3 a b c in (pa, pb, pc, (- s)%Z)).
-  Proof. six_cases; run_sort; reflexivity. Qed.
+  Proof. six_cases a b c Fa Fb Fc D; run_sort; reflexivity. Qed.
 
   Lemma sort3_swap12 :
     sort3 b a c = (let '(pa, pb, pc, s) := sort3 a b c in (pa, pb, pc, (- s)%Z)).
-  Proof. six_cases; run_sort; reflexivity. Qed.
+  Proof. six_cases a b c Fa Fb Fc D; run_sort; reflexivity. Qed.
 
   Lemma sort3_swap23 :
     sort3 a c b = (let '(pa, pb, pc, s) := sort3 a b c in (pa, pb, pc, (- s)%Z)).
-  Proof. six_cases; run_sort; reflexivity. Qed.
+  Proof. six_cases a b c Fa Fb Fc D; run_sort; reflexivity. Qed.
 
   (** the result is sorted strictly increasingly *)
   Lemma sort3_sorted : let '(pa, pb, pc, s) := sort3 a b c in
     cmp_gt pb pa = true /\ cmp_gt pc pb = true /\ (s = 1 \/ s = -1)%Z.
-  Proof. six_cases; run_sort; repeat split; auto. Qed.
+  Proof. six_cases a b c Fa Fb Fc D; run_sort; repeat split; auto. Qed.
 End Sort.
 
 Theorem exact_sign_rotate a b c p : finite a -> finite b -> finite c -> distinct3 a b c ->
